@@ -156,6 +156,13 @@ func c05Start(inst *c05Inst, b *vfBrowser, id string) (*c05Login, error) {
 	out := &c05Login{ID: id, Inst: inst, State: l.State, LoginURL: l.LoginURL, Ident: ident, Start: l.StartResp,
 		SentNonce: l.AuthReq.Params.Get("nonce"), Challenge: l.AuthReq.Params.Get("code_challenge"), ChMethod: l.AuthReq.Params.Get("code_challenge_method")}
 	st := out.State
+	if inst.P.Opts.EncodeState {
+		b, err := base64.RawURLEncoding.DecodeString(st)
+		if err != nil {
+			return nil, fmt.Errorf("state %q is not base64url although --encode-state is set", st)
+		}
+		st = string(b)
+	}
 	if k := strings.IndexByte(st, ':'); k >= 0 {
 		out.StateNonce = st[:k]
 	} else {
@@ -305,6 +312,14 @@ func (s *c05Script) Final() (interface{}, bool) {
 	return s.final, s.applied
 }
 
+// c05Rig records a failure of the rig itself (never a verdict on the property); the run ends INCONCLUSIVE.
+func c05Rig(run *vfRun, format string, a ...interface{}) {
+	run.Count("rig_failures", 1)
+	if run.Counter("rig_failures") <= 5 {
+		fmt.Printf("NOTE rig failure: "+format+"\n", a...)
+	}
+}
+
 type c05World struct {
 	Run      *vfRun
 	W        *vfWorld
@@ -444,7 +459,8 @@ func (cw *c05World) callback(unit string, Y, K *c05Login, beh string, sc *c05Scr
 	inst := Y.Inst
 	code, _, err := cw.W.IdP.Authorize(K.LoginURL, K.Ident)
 	if err != nil {
-		run.T.Fatalf("authorize: %v", err)
+		c05Rig(run, "authorize: %v", err)
+		return &c05Attempt{Y: Y, K: K}
 	}
 	cw.scripts.Store(code, sc)
 	req := vfGET(inst.P.Opts.ProxyPrefix + "/callback?code=" + vfQueryEscape(code) + "&state=" + vfQueryEscape(Y.State))
@@ -629,7 +645,8 @@ func (cw *c05World) unit(inst *c05Inst, beh c05Beh, shape c05Shape, cross bool, 
 	start := func(br *vfBrowser, id string) *c05Login {
 		l, err := c05Start(inst, br, id)
 		if err != nil {
-			run.T.Fatalf("%s: %v", unit, err)
+			c05Rig(run, "%s: %v", unit, err)
+			return nil
 		}
 		cw.addLogin(l)
 		run.Count("logins_started", 1)
@@ -641,9 +658,15 @@ func (cw *c05World) unit(inst *c05Inst, beh c05Beh, shape c05Shape, cross bool, 
 		return l
 	}
 	donor := start(other, fmt.Sprintf("u%d-donor", un))
+	if donor == nil {
+		return
+	}
 	replayKey := ""
 	if beh.Make == nil { // replay: a previous login of the same browser completes honestly, its ID token is kept
 		prev := start(b, fmt.Sprintf("u%d-prev", un))
+		if prev == nil {
+			return
+		}
 		replayKey = fmt.Sprintf("u%d-%d", un, atomic.AddInt64(&c05Seq, 1))
 		a := cw.callback(unit+" (preamble)", prev, prev, "capture", &c05Script{Beh: "capture", Key: replayKey}, [][2]string{{prev.CookieName, prev.CookieValue}}, shape.Name, false)
 		if _, ok := cw.captured.Load(replayKey); !ok || !a.Session {
@@ -656,7 +679,9 @@ func (cw *c05World) unit(inst *c05Inst, beh c05Beh, shape c05Shape, cross bool, 
 	attempted := map[int]bool{}
 	for _, op := range shape.Ops {
 		if op > 0 {
-			logins[op] = start(b, fmt.Sprintf("u%d-%d", un, op))
+			if logins[op] = start(b, fmt.Sprintf("u%d-%d", un, op)); logins[op] == nil {
+				return
+			}
 			order = append(order, op)
 			continue
 		}
@@ -890,6 +915,23 @@ func TestVerif_C05(t *testing.T) {
 				if m != "" {
 					flags = append(flags, "--code-challenge-method="+m)
 				}
+				// secondary dimensions rotated over the instances (seed-dependent phase): state encoding, session store,
+				// cookie name, proxy prefix, provider button
+				k := len(insts) + int(run.Env.Seed)
+				if k%2 == 0 {
+					flags = append(flags, "--encode-state=true")
+				}
+				if k%3 == 0 {
+					flags = append(flags, "--session-store-type=redis", "--redis-connection-url="+w.RedisURL())
+				}
+				switch k % 4 {
+				case 1:
+					flags = append(flags, "--cookie-name=c05_sess")
+				case 2:
+					flags = append(flags, "--proxy-prefix=/auth5")
+				case 3:
+					flags = append(flags, "--skip-provider-button=true")
+				}
 				p, err := w.NewProxy(flags...)
 				if err != nil {
 					t.Fatalf("%s: %v", cfg.Label(), err)
@@ -931,7 +973,8 @@ func TestVerif_C05(t *testing.T) {
 		inst := insts[i%len(insts)]
 		l, err := c05Start(inst, vfNewBrowser(""), fmt.Sprintf("bulk-%d", i))
 		if err != nil {
-			run.T.Fatalf("bulk start [%s]: %v", inst.Cfg.Label(), err)
+			c05Rig(run, "bulk start [%s]: %v", inst.Cfg.Label(), err)
+			return
 		}
 		cw.addLogin(l)
 		run.Count("logins_started", 1)
@@ -949,5 +992,9 @@ func TestVerif_C05(t *testing.T) {
 		fmt.Printf("INCONCLUSIVE property=C05 reason=history monitor without events\n")
 		t.Fail()
 	}
-	run.Finish(int64(run.Env.Pick(4000, 20000)), run.Env.Pick(600, 1200))
+	if n := run.Counter("rig_failures"); n > 0 {
+		fmt.Printf("INCONCLUSIVE property=C05 reason=%d rig failures (see NOTE lines)\n", n)
+		t.Fail()
+	}
+	run.Finish(int64(run.Env.Pick(6000, 40000)), run.Env.Pick(900, 2000))
 }
